@@ -76,3 +76,70 @@ Print Assumptions C03_der_is_canonical_variant.
 Theorem C03_canonical_choices_keep_value : forall t v, var_val t ch_canon v = v.
 Proof. exact var_val_canon. Qed.
 Print Assumptions C03_canonical_choices_keep_value.
+
+(* ===================================================================== *)
+(* Extensibility layer (coq/Rt/Ext.v, ExtProofs.v; notes/design/EXT.md): valid encodings from OTHER versions
+   of an extensible SEQUENCE.  An encoding produced for a prefix type (the first additions [known]) decodes under
+   the full type (additions [known ++ more]) to the value with the remaining additions absent: the presence
+   bitmap (OER) / the addition count (UPER) is shorter than the reader's list, the missing bits mean absent. *)
+From A1 Require Import Rt.Uper Rt.Oer Rt.Ext Rt.ExtFormat Rt.ExtProofs.
+
+Theorem C03_ext_uper_older_sender : forall std tg root known more rvs avs bits rest,
+  wf_ety_uper (ESeq tg root known) = true -> wt_ety_uper std (ESeq tg root known) (EVSeq rvs avs) ->
+  ext_count_ok std (ESeq tg root known) ->
+  ext_uper std (ESeq tg root known) (EVSeq rvs avs) = Some bits ->
+  ext_uper_dec std (ESeq tg root (known ++ more)) (bits ++ rest) = Some (EVSeq rvs (avs ++ absent_all more), rest).
+Proof. exact ext_uper_seq_bwd. Qed.
+Print Assumptions C03_ext_uper_older_sender.
+
+Theorem C03_ext_oer_older_sender : forall std tg root known more rvs avs bs rest,
+  wf_ety_oer (ESeq tg root known) = true -> wt_ety_oer (ESeq tg root known) (EVSeq rvs avs) ->
+  ext_oer (ESeq tg root known) (EVSeq rvs avs) = Some bs ->
+  ext_oer_dec std (ESeq tg root (known ++ more)) (bs ++ rest) = Some (EVSeq rvs (avs ++ absent_all more), rest).
+Proof. exact ext_oer_seq_bwd. Qed.
+Print Assumptions C03_ext_oer_older_sender.
+
+Theorem C03_ext_ber_older_sender : forall tg root known more rvs avs bs rest,
+  wf_ety_der (ESeq tg root known) = true -> wt_ety_der (ESeq tg root known) (EVSeq rvs avs) = true ->
+  ext_der (ESeq tg root known) (EVSeq rvs avs) = Some bs -> zlen bs <= rssize_max ->
+  ext_ber_dec (ESeq tg root (known ++ more)) (bs ++ rest) = Some (EVSeq rvs (avs ++ absent_all more), rest).
+Proof. exact ext_ber_seq_bwd. Qed.
+Print Assumptions C03_ext_ber_older_sender.
+
+(* a NEWER sender: the additions the reader does not know are skipped (BER always; UPER / OER under the standard
+   reading; for the C see C01_ext_uper_forward_compat / C01_ext_oer_forward_compat and their refutations) *)
+Theorem C03_ext_ber_newer_sender : forall tg root adds rvs avs bs rest k,
+  wf_ety_der (ESeq tg root adds) = true -> wt_ety_der (ESeq tg root adds) (EVSeq rvs avs) = true ->
+  ext_der (ESeq tg root adds) (EVSeq rvs avs) = Some bs -> zlen bs <= rssize_max ->
+  ext_ber_dec (ESeq tg root (firstn k adds)) (bs ++ rest) = Some (EVSeq rvs (firstn k avs), rest).
+Proof. exact ext_ber_seq_fwd. Qed.
+Print Assumptions C03_ext_ber_newer_sender.
+
+Theorem C03_ext_uper_newer_sender_std : forall tg root adds rvs avs bits rest k,
+  wf_ety_uper (ESeq tg root adds) = true -> wt_ety_uper true (ESeq tg root adds) (EVSeq rvs avs) ->
+  ext_uper true (ESeq tg root adds) (EVSeq rvs avs) = Some bits ->
+  ext_uper_dec true (truncate_ty k (ESeq tg root adds)) (bits ++ rest) = Some (truncate_val k (EVSeq rvs avs), rest).
+Proof. exact ext_uper_forward_compat_std. Qed.
+Print Assumptions C03_ext_uper_newer_sender_std.
+
+Theorem C03_ext_oer_newer_sender_std : forall tg root adds rvs avs bs rest k,
+  wf_ety_oer (ESeq tg root adds) = true -> wt_ety_oer (ESeq tg root adds) (EVSeq rvs avs) ->
+  ext_oer (ESeq tg root adds) (EVSeq rvs avs) = Some bs ->
+  ext_oer_dec true (truncate_ty k (ESeq tg root adds)) (bs ++ rest) = Some (truncate_val k (EVSeq rvs avs), rest).
+Proof. exact ext_oer_forward_compat_std. Qed.
+Print Assumptions C03_ext_oer_newer_sender_std.
+
+Theorem C03_ext_uper_newer_sender_c_refuted :
+  exists t v k bits, wf_ety_uper t = true /\ wt_ety_uper false t v /\ ext_uper false t v = Some bits /\
+    ext_uper true t v = Some bits /\
+    ext_uper_dec false (truncate_ty k t) bits = None /\
+    ext_uper_dec true (truncate_ty k t) bits = Some (truncate_val k v, []).
+Proof. exact ext_uper_forward_compat_c_refuted. Qed.
+Print Assumptions C03_ext_uper_newer_sender_c_refuted.
+
+Theorem C03_ext_oer_newer_sender_c_refuted :
+  exists t v k bs, wf_ety_oer t = true /\ wt_ety_oer t v /\ ext_oer t v = Some bs /\
+    ext_oer_dec false (truncate_ty k t) bs <> Some (truncate_val k v, []) /\
+    ext_oer_dec true (truncate_ty k t) bs = Some (truncate_val k v, []).
+Proof. exact ext_oer_forward_compat_c_refuted. Qed.
+Print Assumptions C03_ext_oer_newer_sender_c_refuted.
